@@ -220,3 +220,215 @@ theorem cancelled_progress_bounded (N : Nat) (s s' : Sys) (h : Rel N s' s) : K N
   rcases step_decreases N s s' h with h1 | ⟨h1, _⟩ <;> omega
 
 end NextestModel.System
+
+/-! ### every run ends: the same with retry budgets instead of cancellation -/
+
+namespace NextestModel.System
+open NextestModel.Dispatcher
+
+def rk (p : UPhase) (l : Nat) : Nat :=
+  match p with
+  | .notStarted => 10 * l + 6 | .waitStart => 10 * l + 5 | .running => 10 * l + 4
+  | .delay => 10 * l + 9 | .waitRetry => 10 * l + 8 | .done => 0 | .gone => 0
+
+def Kb (N : Nat) (b : BSys) : Nat := 2 * sumOver N (fun i => rk (b.s.phase i) (b.left i)) + b.s.chan.length
+
+/-- one step of the dispatcher or of one of the `N` units (no new signal), from a state the system can be in -/
+def BRel (N : Nat) (b' b : BSys) : Prop :=
+  Inv b.s ∧ Inv2 b.s ∧ ∃ a, (∀ e, a ≠ .external e) ∧ (∀ i, unitOf a = some i → i < N) ∧ bstep b a = some b'
+
+theorem sum_point (N : Nat) (f g : Nat → Nat) (i : Nat) (hfg : ∀ j, j ≠ i → g j = f j) :
+    (i < N → sumOver N g + f i = sumOver N f + g i) ∧ (N ≤ i → sumOver N g = sumOver N f) := by
+  have hg : g = (fun j => if j = i then g i else f j) := by
+    funext j; by_cases hj : j = i
+    · subst hj; simp
+    · simp [hj, hfg j hj]
+  refine ⟨fun hi => ?_, fun hi => ?_⟩
+  · have := sumOver_update N f i (g i) hi
+    rw [← hg] at this; exact this
+  · have := sumOver_update_out N f i (g i) hi
+    rw [← hg] at this; exact this
+
+
+/-- a step that changes phase / budget at unit `i` only, from rank `old` to rank `new`, and the channel by `dc` -/
+theorem Kb_change (N : Nat) (b b' : BSys) (i : Nat)
+    (hsame : ∀ j, j ≠ i → b'.s.phase j = b.s.phase j ∧ b'.left j = b.left j) :
+    (i < N → 2 * sumOver N (fun j => rk (b'.s.phase j) (b'.left j)) + 2 * rk (b.s.phase i) (b.left i) =
+        2 * sumOver N (fun j => rk (b.s.phase j) (b.left j)) + 2 * rk (b'.s.phase i) (b'.left i)) ∧
+    (N ≤ i → sumOver N (fun j => rk (b'.s.phase j) (b'.left j)) = sumOver N (fun j => rk (b.s.phase j) (b.left j))) := by
+  have h := sum_point N (fun j => rk (b.s.phase j) (b.left j)) (fun j => rk (b'.s.phase j) (b'.left j)) i
+    (fun j hj => by show rk (b'.s.phase j) (b'.left j) = rk (b.s.phase j) (b.left j); rw [(hsame j hj).1, (hsame j hj).2])
+  exact ⟨fun hi => by have := h.1 hi; omega, h.2⟩
+
+theorem Kb_lt (N : Nat) (b b' : BSys) (i : Nat) (hi : i < N)
+    (hsame : ∀ j, j ≠ i → b'.s.phase j = b.s.phase j ∧ b'.left j = b.left j)
+    (hchan : b'.s.chan.length ≤ b.s.chan.length + 1)
+    (hr : rk (b'.s.phase i) (b'.left i) + 1 ≤ rk (b.s.phase i) (b.left i)) : Kb N b' < Kb N b := by
+  have := (Kb_change N b b' i hsame).1 hi
+  unfold Kb; omega
+
+theorem Kb_lt_deliver (N : Nat) (b b' : BSys) (i : Nat)
+    (hsame : ∀ j, j ≠ i → b'.s.phase j = b.s.phase j ∧ b'.left j = b.left j)
+    (hchan : b'.s.chan.length + 1 = b.s.chan.length)
+    (hr : rk (b'.s.phase i) (b'.left i) ≤ rk (b.s.phase i) (b.left i)) : Kb N b' < Kb N b := by
+  have hc := Kb_change N b b' i hsame
+  unfold Kb
+  by_cases hi : i < N
+  · have := hc.1 hi; omega
+  · have := hc.2 (by omega); omega
+
+theorem bstep_decreases (N : Nat) (b b' : BSys) (h : BRel N b' b) :
+    Kb N b' < Kb N b ∨ (Kb N b' = Kb N b ∧ mails N b'.s < mails N b.s) := by
+  obtain ⟨h1, h2, a, hext, hN, hs⟩ := h
+  cases a with
+  | external e => exact absurd rfl (hext e)
+  | dispatch i =>
+    have hi := hN i rfl
+    simp only [bstep, step] at hs
+    split at hs
+    · rename_i hp
+      simp only [Option.map_some, Option.some.injEq] at hs; subst hs
+      left
+      exact Kb_lt N b _ i hi (fun j hj => ⟨by simp [send, setPhase, hj], rfl⟩) (by simp [send, setPhase])
+        (by simp [send, setPhase, hp, rk])
+    · simp at hs
+  | exitFinish i r sl =>
+    have hi := hN i rfl
+    simp only [bstep, step] at hs
+    split at hs
+    · rename_i hp
+      simp only [Option.map_some, Option.some.injEq] at hs; subst hs
+      left
+      exact Kb_lt N b _ i hi (fun j hj => ⟨by simp [send, setPhase, hj], rfl⟩) (by simp [send, setPhase])
+        (by simp [send, setPhase, hp, rk])
+    · simp at hs
+  | exitRetry i r sl =>
+    have hi := hN i rfl
+    simp only [bstep] at hs
+    split at hs
+    · rename_i hl
+      simp only [step] at hs
+      split at hs
+      · rename_i hp
+        simp only [Option.map_some, Option.some.injEq] at hs; subst hs
+        left
+        exact Kb_lt N b _ i hi (fun j hj => ⟨by simp [send, setPhase, hj], by simp [hj]⟩) (by simp [send, setPhase])
+          (by simp [send, setPhase, hp, rk]; omega)
+      · simp at hs
+    · cases hs
+  | delayExpires i x y =>
+    have hi := hN i rfl
+    simp only [bstep, step] at hs
+    split at hs
+    · rename_i hp
+      simp only [Option.map_some, Option.some.injEq] at hs; subst hs
+      left
+      exact Kb_lt N b _ i hi (fun j hj => ⟨by simp [send, setPhase, hj], rfl⟩) (by simp [send, setPhase])
+        (by simp [send, setPhase, hp, rk])
+    · simp at hs
+  | recv i =>
+    have hi := hN i rfl
+    simp only [bstep, step] at hs
+    split at hs
+    · simp at hs
+    · rename_i r rest hm
+      split at hs
+      · simp only [Option.map_some, Option.some.injEq] at hs; subst hs
+        right
+        exact ⟨by simp [Kb, setMail], by have := mails_setMail N b.s i r rest hm hi; simp only; omega⟩
+      · rename_i hp
+        split at hs
+        · simp only [Option.map_some, Option.some.injEq] at hs; subst hs
+          left
+          exact Kb_lt N b _ i hi (fun j hj => ⟨by simp [send, setPhase, setMail, hj], rfl⟩) (by simp [send, setPhase, setMail])
+            (by simp [send, setPhase, setMail, hp, rk])
+        · simp only [Option.map_some, Option.some.injEq] at hs; subst hs
+          right
+          exact ⟨by simp [Kb, setMail], by have := mails_setMail N b.s i r rest hm hi; simp only; omega⟩
+      · simp only [Option.map_some, Option.some.injEq] at hs; subst hs
+        right
+        exact ⟨by simp [Kb, setMail], by have := mails_setMail N b.s i r rest hm hi; simp only; omega⟩
+      · simp at hs
+  | deliver =>
+    simp only [bstep, step] at hs
+    split at hs
+    · simp at hs
+    · rename_i e rest hch
+      split at hs
+      · simp at hs
+      · rename_i d' o hd
+        left
+        have hlen : b.s.chan.length = rest.length + 1 := by rw [hch]; simp
+        -- the unit whose announcement is delivered is waiting for the reply
+        have hproj : ∀ u, mentions u e = true → proj u b.s.chan = e :: proj u rest := by
+          intro u hm; rw [hch, proj_cons, hm]; simp
+        cases e with
+        | started i =>
+          have hpat := h2.pat i
+          rw [hproj i (by simp [mentions])] at hpat
+          obtain ⟨hph, _⟩ := (pat_head i _ _ _ hpat).1 rfl
+          simp only at hs
+          split at hs
+          · simp only [Option.map_some, Option.some.injEq] at hs; subst hs
+            exact Kb_lt_deliver N b _ i (fun j hj => ⟨by simp [setPhase, applyOut, hj], rfl⟩) (by simp [setPhase, applyOut, hlen])
+              (by simp [setPhase, applyOut, hph, rk])
+          · simp only [Option.map_some, Option.some.injEq] at hs; subst hs
+            exact Kb_lt_deliver N b _ i (fun j hj => ⟨by simp [setPhase, applyOut, hj], rfl⟩) (by simp [setPhase, applyOut, hlen])
+              (by simp [setPhase, applyOut, hph, rk])
+        | retryStarted i x y =>
+          have hpat := h2.pat i
+          rw [hproj i (by simp [mentions])] at hpat
+          obtain ⟨hph, _⟩ := (pat_head i _ _ _ hpat).2.1 x y rfl
+          simp only at hs
+          split at hs
+          · simp only [Option.map_some, Option.some.injEq] at hs; subst hs
+            exact Kb_lt_deliver N b _ i (fun j hj => ⟨by simp [setPhase, applyOut, hj], rfl⟩) (by simp [setPhase, applyOut, hlen])
+              (by simp [setPhase, applyOut, hph, rk])
+          · simp only [Option.map_some, Option.some.injEq] at hs; subst hs
+            exact Kb_lt_deliver N b _ i (fun j hj => ⟨by simp [setPhase, applyOut, hj], rfl⟩) (by simp [setPhase, applyOut, hlen])
+              (by simp [setPhase, applyOut, hph, rk])
+        | _ =>
+          simp only [Option.map_some, Option.some.injEq] at hs; subst hs
+          simp only [Kb, applyOut]
+          rw [hlen]; omega
+
+theorem all_steps_wf (N : Nat) : WellFounded (BRel N) := by
+  have hwf : WellFounded (Prod.Lex (fun (a b : Nat) => a < b) (fun (a b : Nat) => a < b)) := (Prod.lex Nat.lt_wfRel Nat.lt_wfRel).wf
+  refine Subrelation.wf (r := InvImage (Prod.Lex (fun (a b : Nat) => a < b) (fun (a b : Nat) => a < b)) (fun b => (Kb N b, mails N b.s))) ?_ (InvImage.wf _ hwf)
+  intro b' b h
+  rcases bstep_decreases N b b' h with h1 | ⟨h1, h2⟩
+  · exact Prod.Lex.left _ _ h1
+  · show Prod.Lex _ _ (Kb N b', mails N b'.s) (Kb N b, mails N b.s)
+    rw [h1]; exact Prod.Lex.right _ h2
+
+
+theorem bstep_is_step (b b' : BSys) (a : Act) (h : bstep b a = some b') : step b.s a = some b'.s := by
+  cases a with
+  | exitRetry i r sl =>
+    simp only [bstep] at h
+    split at h
+    · cases hs : step b.s (.exitRetry i r sl) with
+      | none => simp [hs] at h
+      | some s' => simp only [hs, Option.map_some, Option.some.injEq] at h; subst h; rfl
+    · cases h
+  | _ =>
+    simp only [bstep] at h
+    first
+      | (cases hs : step b.s _ with
+         | none => simp [hs] at h
+         | some s' => simp only [hs, Option.map_some, Option.some.injEq] at h; subst h; rfl)
+
+theorem brun_is_run : ∀ (acts : List Act) (b b' : BSys), brunActs b acts = some b' → runActs b.s acts = some b'.s := by
+  intro acts
+  induction acts with
+  | nil => intro b b' h; simp only [brunActs, Option.some.injEq] at h; subst h; rfl
+  | cons a as ih =>
+    intro b b' h
+    simp only [brunActs] at h
+    split at h
+    · cases h
+    · rename_i b1 hb1
+      simp only [runActs, bstep_is_step b b1 a hb1]
+      exact ih b1 b' h
+
+end NextestModel.System
